@@ -345,7 +345,14 @@ def d6_selection(ctx):
     ctx.check(bool(rg) and "seed=seed" in src(rg[0].value), fi, rg[0].stmt if rg else fi.node, rg[0].stmt if rg else "rng", "generator is seeded by the caller's seed", "the seed is not used", key="seed")
 
 
+def dS_shared(ctx):
+    from sa.common import rule_no_shared_mutation
+    rule_no_shared_mutation(ctx, "DS", ['ibldsp.waveform_extraction.extract_wfs_array', 'ibldsp.waveform_extraction._make_wfs_table', 'ibldsp.waveform_extraction.write_wfs_chunk', 'ibldsp.waveform_extraction.extract_wfs_cbin', 'ibldsp.waveform_extraction.WaveformsLoader.load_waveforms', 'ibldsp.utils.make_channel_index'],
+                            'a later request returns rows / samples selected by a mask or table an earlier request narrowed: the loader no longer returns what was saved')
+
+
 def run(ctx):
+    ctx.run(dS_shared)
     r = ctx.run(d1_threading)
     ctx.run(d2_padding)
     if r is not None:
